@@ -18,7 +18,7 @@ from ..cfg import explore, must_facts, canon_fact, holds
 from ..rules import call_sites
 from ..mutate import mutate, remove_stmts, replace_stmt, replace_expr, parse_stmt, parse_expr
 from ..model import AnalysisError
-from ..x_scope import own_nodes
+from ..x_scope import own_nodes, strip_annotations
 from ..x_flow import protected, check_default_only_for_none, check_exact, param_value_flow, DEFAULT, derivation, resolve_local, expand_locals, expanded_facts, concrete_paths
 
 TECHNIQUE = "table extraction + exception-escape lint on the dispatch parsers + guard-dominance / path-sensitive exploration of the command-line and config paths"
@@ -736,6 +736,7 @@ def rule_defaults(ck):
 
 
 def run(ck):
+    ck.repo = strip_annotations(ck.repo, F)
     ck.rule("C44.whole-text", "timedelta text is consumed completely by anchored matches; lo:hi ranges only for integral options; the command-line scan starts after argv[0] and covers every argument")
     ck.rule("C44.value-exact", "option values reach the type parser byte-exact: only partition/split/slicing between the argument and the parser, no normaliser/strip/lower")
     ck.rule("C44.defaults", "defaults replace only None: an explicit empty argument list, falsy option defaults and falsy defaults used for type inference are honoured")
